@@ -30,6 +30,8 @@ type Solver struct {
 	defined map[int]bool // term id -> has a definition in the current scopes
 	Queries int
 	Time    time.Duration
+	ModelTime time.Duration
+	Models  int
 	Errors  int
 	LastErr string
 	Log     io.Writer // optional transcript
@@ -188,30 +190,104 @@ func (s *Solver) Check() Result {
 	return res
 }
 
-// Model returns values of the given variables after a Sat answer.
+// Model returns values of the given variables after a Sat answer (one round trip).
 func (s *Solver) Model(vars []*Term) map[string]uint64 {
+	t0 := time.Now()
+	defer func() { s.ModelTime += time.Since(t0); s.Models++ }()
 	m := map[string]uint64{}
+	var names []string
 	for _, v := range vars {
 		if !s.defined[v.ID] {
 			continue // never sent to the solver: unconstrained, 0
 		}
-		s.send(fmt.Sprintf("(get-value (|%s|))", v.Name))
-		s.send("(echo \"<<done>>\")")
-		var sb strings.Builder
-		for {
-			line, err := s.readLine()
-			if err != nil || line == "<<done>>" || line == "\"<<done>>\"" {
+		names = append(names, "|"+v.Name+"|")
+	}
+	if len(names) == 0 {
+		return m
+	}
+	s.send("(get-value (" + strings.Join(names, " ") + "))")
+	s.send("(echo \"<<done>>\")")
+	var sb strings.Builder
+	for {
+		line, err := s.readLine()
+		if err != nil || line == "<<done>>" || line == "\"<<done>>\"" {
+			break
+		}
+		sb.WriteString(line)
+		sb.WriteString(" ")
+	}
+	txt := sb.String()
+	// the answer is ((name value) (name value) ...); names may or may not be |quoted|
+	i := strings.Index(txt, "(")
+	if i < 0 {
+		return m
+	}
+	i++
+	n := len(txt)
+	for i < n {
+		for i < n && txt[i] != '(' {
+			if txt[i] == ')' {
+				return m
+			}
+			i++
+		}
+		if i >= n {
+			break
+		}
+		i++ // past '('
+		for i < n && txt[i] == ' ' {
+			i++
+		}
+		var name string
+		if i < n && txt[i] == '|' {
+			j := strings.IndexByte(txt[i+1:], '|')
+			if j < 0 {
 				break
 			}
-			sb.WriteString(line)
-			sb.WriteString(" ")
+			name = txt[i+1 : i+1+j]
+			i = i + 1 + j + 1
+		} else {
+			j := i
+			for j < n && txt[j] != ' ' && txt[j] != ')' {
+				j++
+			}
+			name = txt[i:j]
+			i = j
 		}
-		txt := sb.String()
-		if val, ok := parseValue(txt); ok {
-			m[v.Name] = val
+		// value: up to the matching ')'
+		depth := 0
+		j := i
+		for j < n {
+			if txt[j] == '(' {
+				depth++
+			} else if txt[j] == ')' {
+				if depth == 0 {
+					break
+				}
+				depth--
+			}
+			j++
 		}
+		if val, ok := parseScalar(txt[i:j]); ok {
+			m[name] = val
+		}
+		i = j + 1
 	}
 	return m
+}
+
+func parseScalar(txt string) (uint64, bool) {
+	if v, ok := parseValue(txt); ok && (strings.Contains(txt, "#") || strings.Contains(txt, "(_ bv")) {
+		return v, true
+	}
+	t := strings.TrimSpace(txt)
+	if strings.HasPrefix(t, "true") {
+		return 1, true
+	}
+	if strings.HasPrefix(t, "false") {
+		return 0, true
+	}
+	return 0, false
 }
 
 func parseValue(txt string) (uint64, bool) {
